@@ -26,6 +26,12 @@ def run(ctx):
     ctx.assumptions += ["regex triggers are case-agnostic classes (digit, trailing '#'); callbacks answer by typing a line; a list that re-fires more than 10 times is stopped by the harness (outcome aborted)"]
     if ctx.replay:
         rp = json.load(open(ctx.replay))["scenario"]
+        if rp.get("kind") == "no-function":
+            for r in ctx.run_harness("c18nil", []):
+                ctx.count()
+                if not r["ok"] and r["variant"] == rp["variant"]:
+                    ctx.violation(r["sig"], r["detail"], rp)
+            return
         if rp.get("kind") == "trace":
             validate_traces(ctx, "CallbackTrace", [json.dumps(e) for e in rp["trace"]], "C18:trace-rejected", "replayed operation", sigfn=sig_of)
             return
@@ -63,6 +69,17 @@ def run(ctx):
             if rr["extra"]["fires"] > 0:
                 ctx.nontriv("scn%s" % rr["id"])
     ctx.notes["outcome_classes"] = classes
+    # callbacks without a function of their own: judged by the outcome of directed dialogues (c18nil.go)
+    resn = ctx.run_harness("c18nil", [], timeout=300)
+    if len(resn) != 9:
+        raise ToolError("c18nil answered %d of 9; stderr:\n%s" % (len(resn), ctx.last_stderr[-2000:]))
+    for rr in resn:
+        ctx.count()
+        ctx.nontriv("no-function/" + rr["variant"])
+        if not rr["ok"]:
+            again = [x for x in ctx.run_harness("c18nil", [], timeout=300) if x["variant"] == rr["variant"] and not x["ok"]]
+            if again:
+                ctx.violation(again[0]["sig"], again[0]["detail"], {"kind": "no-function", "variant": rr["variant"]})
     lines = open(trace).read().splitlines()
     validate_traces(ctx, "CallbackTrace", lines, "C18:trace-rejected", "recorded SendWithCallbacks operation", dfs=False, maxrej=12, sigfn=sig_of)
     if lines:
